@@ -123,7 +123,9 @@ def gen_sequence(rng, root):
                             elif act == "delete":
                                 disk[dd.key] = None
                             if not pkg_loaded[0]:
-                                client[dd.key] = None        # the package gets loaded later: left to the model
+                                client.pop(dd.key, None)     # not in the server's store yet, the package gets loaded later: left to the model
+                            elif dd.key in is_open and is_open[dd.key] is None:
+                                client[dd.key] = None        # the oracle does not know whether the server still counts it as open
                             elif typ == 3 or disk[dd.key] is None:
                                 client[dd.key] = "VANISHED"
                             elif p_text.wf_crlf(disk[dd.key]):
@@ -144,6 +146,8 @@ def gen_sequence(rng, root):
                         if not is_open.get("f8"):
                             # the editor does not hold it open: the server follows the disk
                             if not pkg_loaded[0]:
+                                client.pop("f8", None)
+                            elif "f8" in is_open and is_open["f8"] is None:
                                 client["f8"] = None
                             elif typ == 3 or disk["f8"] is None:
                                 client["f8"] = "VANISHED"
@@ -278,6 +282,10 @@ def gen_sequence(rng, root):
             elif d.key in client:
                 if any(c[2] not in ("valid", "full", "col-beyond") for c in changes) or cur is None:
                     client[d.key] = None if cur is None and all(c[2] in ("valid", "full", "col-beyond") for c in changes) else "FORGOTTEN"
+                    # a forgotten document is no longer recorded as open by the server either ("clear file states"); when the
+                    # oracle does not know whether the edit could be applied it does not know that either
+                    if is_open.get(d.key):
+                        is_open[d.key] = False if client[d.key] == "FORGOTTEN" else None
                 else:
                     client[d.key] = cur
             continue
